@@ -17,8 +17,16 @@ SBO = {"exchange": "SBO:0000627", "demand": "SBO:0000628", "sink": "SBO:0000632"
 PREFIX = {"exchange": "EX", "demand": "DM", "sink": "SK"}
 
 
+_UID = [0]
+
+
+def _uid():
+    _UID[0] += 1
+    return _UID[0]
+
+
 def new_met(mid, compartment="c"):
-    return {"name": "", "formula": None, "charge": None, "compartment": compartment, "notes": {}, "annotation": {}}
+    return {"name": "", "formula": None, "charge": None, "compartment": compartment, "notes": {}, "annotation": {}, "uid": _uid()}
 
 
 def new_gene():
@@ -44,7 +52,9 @@ class Ref:
         for m in spec["mets"]:
             self.mets[m["id"]] = {"name": m.get("name", ""), "formula": m.get("formula"), "charge": m.get("charge"),
                                   "compartment": m.get("compartment"), "notes": copy.deepcopy(m.get("notes", {})),
-                                  "annotation": copy.deepcopy(m.get("annotation", {}))}
+                                  "annotation": copy.deepcopy(m.get("annotation", {})), "uid": _uid()}
+        self.graveyard: List[Dict[str, Any]] = []  # reactions taken out by remove_reactions, in removal order
+        self.dead_mets: Dict[int, Tuple[str, Dict[str, Any]]] = {}  # metabolite objects that left the model
         self.genes: Dict[str, Dict[str, Any]] = {}
         self.rxns: Dict[str, Dict[str, Any]] = {}
         for r in spec["rxns"]:
@@ -94,7 +104,8 @@ class Ref:
                     self._drop_member("g", gid)
 
     def _remove_met_entry(self, mid):
-        del self.mets[mid]
+        rec = self.mets.pop(mid)
+        self.dead_mets[rec["uid"]] = (mid, rec)  # the object lives on outside the model with its last id
         self._drop_member("m", mid)
 
     @staticmethod
@@ -171,7 +182,33 @@ class Ref:
             picked = picked[:1]
         for rid in picked:
             if rid in self.rxns:  # a reaction listed twice is "not in the model" the second time (warning only)
+                rec = self.rxns[rid]
+                # the removed object keeps its content and its metabolite objects (tracked by uid: they may be renamed
+                # or leave the model later)
+                grave = {"id": rid, "rec": {k: copy.deepcopy(v) for k, v in rec.items() if k != "mets"},
+                         "mets": [(self.mets[m]["uid"], c) for m, c in rec["mets"].items()]}
                 self._remove_rxn(rid, op["orphans"])
+                self.graveyard.append(grave)
+
+    def op_readd(self, op, o, out):
+        g = self.graveyard[op["k"] % len(self.graveyard)]
+        rid = g["id"]
+        if rid in self.rxns:
+            return  # "Reactions with identifiers identical to a reaction already in the model are ignored."
+        mets = {}
+        by_uid = {m["uid"]: mid for mid, m in self.mets.items()}
+        for uid, c in g["mets"]:
+            if uid in by_uid:
+                mets[by_uid[uid]] = c
+            else:
+                mid, rec = self.dead_mets[uid]
+                if mid not in self.mets:
+                    self.mets[mid] = rec  # the reaction brings its metabolite object back into the model
+                    del self.dead_mets[uid]
+                mets[mid] = c  # otherwise re-pointed to the model's metabolite of that id
+        self.rxns[rid] = {**copy.deepcopy(g["rec"]), "mets": mets}
+        self._ensure_genes(g["rec"]["rule"])
+        g["back"] = True
 
     def op_add_metabolites(self, op, o, out):
         ids = [MID[i] for i in op["mets"]]
@@ -496,9 +533,13 @@ class Ref:
                 del self.objective[first]
         if not (op["inplace"]):
             self.id = f"{self.id}_right"
+            self.graveyard = []  # the driver continues on the new model; removed objects stay with the old one
 
     # content-neutral operations
     def _noop(self, op, o, out):
         return None
 
-    op_copy = op_solver = op_optimize = op_repair = op_add_cons = op_add_var = op_remove_cons = _noop
+    def op_copy(self, op, o, out):
+        self.graveyard = []  # the driver continues on the copy; removed objects belong to the original's history
+
+    op_solver = op_optimize = op_repair = op_add_cons = op_add_var = op_remove_cons = _noop
